@@ -213,7 +213,10 @@ func (m *collection) mergerWaitForWork(pings []ping) (
 
 	m.m.Lock()
 
-	if m.stackDirtyTop == nil || len(m.stackDirtyTop.a) <= 0 {
+	// Any executed batch leaves a non-nil stackDirtyTop, even a batch
+	// that only touches (or only deletes) child collections and so has
+	// no top-level segment of its own.
+	if m.stackDirtyTop == nil {
 		m.waitDirtyIncomingCh = make(chan struct{})
 		waitDirtyIncomingCh = m.waitDirtyIncomingCh
 	}
